@@ -8,6 +8,7 @@ CONSTANTS
   U16Classes <- C_U16
   NameClasses <- C_Name
   Pairs = FALSE
+  CutInCtx = TRUE
   CutDevs = FALSE
 INVARIANTS InvAlloc
 CHECK_DEADLOCK FALSE
